@@ -36,7 +36,7 @@ from vf import c24_interp as I
 
 PROPERTY = "C24"
 LEVEL = "exploration"
-SELFTEST = os.environ.get("VF_C24_SELFTEST", "")     # "alg" | "psy" | ""
+SELFTEST = os.environ.get("VF_C24_SELFTEST", "")  # alg | psy | drop | ""
 
 FFLAGS = ["-O0", "-g", "-fimplicit-none", "-fcheck=all",
           "-ffree-line-length-none", "-fmax-errors=5"]
@@ -172,6 +172,17 @@ def selftest_mutate(alg, psy):
                     break
             if done:
                 lines[i] = m.group(1) + ",".join(acts) + m.group(3)
+                n += 1
+                break
+        alg = "\n".join(lines) + "\n"
+    elif SELFTEST == "drop":
+        lines = alg.splitlines()
+        for i, ln in enumerate(lines):
+            m = re.match(r"(?i)^(\s*call\s+invoke[a-z0-9_]+\s*\()(.*)(\)\s*)$",
+                         ln)
+            if m and len(I._split_top(m.group(2))) > 1:
+                lines[i] = m.group(1) + ",".join(
+                    I._split_top(m.group(2))[:-1]) + m.group(3)
                 n += 1
                 break
         alg = "\n".join(lines) + "\n"
@@ -341,19 +352,13 @@ def run_program(part, desc, cfg, env):
         if rc != 0:
             # the PSy module alone is not valid Fortran: not a statement
             # about the call/routine agreement; counted, reported separately
-            part.count("psy_layer_alone_does_not_compile")
-            part.count("psy_alone: " + _short(re.sub(
-                r"psy\.f90:\d+:\d+:", "", err), 160))
+            part.count("psy_layer_alone_does_not_compile_not_judged")
             hz = set()
             for p, ia in zip(parsed, ints_at):
                 hz |= set(hazards_of(p, ia))
-            part.violation(dict(witness_base, **{
-                "kind": "psy_layer_alone_does_not_compile",
-                "mechanism": "+".join(sorted(hz)) or "none",
-                "what": "gfortran rejects the generated PSy module on its "
-                        "own (%s): %s" % (cname, _short(err, 500)),
-                "stderr": err[-3000:], "hazards": sorted(hz),
-                "dedupe": ["psyalone", sorted(hz)]}))
+            first = [l for l in err.splitlines() if "Error:" in l][:1]
+            part.count("psy_alone[%s]: %s" % (
+                "+".join(sorted(hz)) or "none", _short(" ".join(first), 120)))
             part.case(key=key, nontrivial=False)
             return
         rc, _, err = _run(["gfortran"] + FFLAGS + inc + ["-c", "alg.f90"], rd)
@@ -684,6 +689,8 @@ def main(ctx):
         "is counted and not judged)",
         "a program PSyclone refuses (e.g. the same argument text twice in "
         "one kernel call) is counted, not judged",
-        "a PSy module that is not valid Fortran on its own is reported under "
-        "its own kind (psy_layer_alone_does_not_compile)",
+        "a PSy module that is not valid Fortran on its own (seen: a field "
+        "named f2_proxy next to f2) says nothing about call/routine "
+        "agreement: counted (psy_layer_alone_does_not_compile_not_judged), "
+        "not judged here",
     ]
